@@ -102,8 +102,10 @@ CLAIMS = {
              'physical_to_dictionary agree on free, fixed and link entries with one forward '
              'coordinate counter; a declared key / distribution is never tested for truthiness '
              '(0, 0.0, False are legal fixed values) and is rebound only under a type or is-None '
-             'test of itself.  The numerical clauses (inverse CDF shape) are not decided.',
-        ref='DESIGN.md section 4 C15 and 10, rules T1 T1b T7 R1 L1p K1 A1 A1c F1p D1',
+             'test of itself; a free parameter is ppf(u) / isf(1 - u) of the coordinate it is stored '
+             'to, a (low, high) tuple becomes uniform(loc=low, scale=high-low), a fixed value is '
+             'constant.  The shape of scipy\'s quantile functions is not decided.',
+        ref='DESIGN.md section 4 C15 and 10, rules T1 T1b T7 R1 L1p K1 A1 A1c F1p D1 D2 D3',
         note=TRUST),
 }
 
@@ -151,7 +153,7 @@ CLAIMS.update({
              'exactly the indices 0..N-1 (range bounds evaluated, probed while-loops start at 0, '
              'advance by one and continue while the key exists); a class chosen by comparing a '
              'stored tag with a string is the class of that name.',
-        ref='DESIGN.md section 4 C09 and 10.9, rules P1-P5 P7-P12', note=TRUST +
+        ref='DESIGN.md section 4 C09 and 10.9, rules P1-P5 P7-P13', note=TRUST +
         ' Exact array round-trip through HDF5 and the sklearn attribute sweep are trusted.'),
     'C10': dict(
         technique='who-may-call / who-may-write tables, CFG loop contract, def-use accounting',
